@@ -22,10 +22,12 @@ VALUES = {
     # distinct floats that a tolerance-based comparison would confuse
     "d": [1e-9, 2e-9, 4e-9],
     "e": [2.4e9, 2.4e9 + 5e3, 2.4e9 + 1e4],
+    # falsy-but-valid values
+    "z": [0, 1, 2],
 }
 
 
-def make_grid(lengths, order=("b", "a", "c", "e", "d"), as_array=()):
+def make_grid(lengths, order=("b", "a", "c", "e", "d", "z"), as_array=()):
     """lengths: dict name -> length (1..3) of the unpacked parameters.
     Returns (params_dict, unpacked_names_in_insertion_order)."""
     d = {}
@@ -61,7 +63,7 @@ def eval_keep_going(spec, merged_sum, rep):
         return bool((v >> ((rep - 1) % 4)) & 1) if rep <= 4 else True
     if kind in ("sum", "sum_np"):
         return merged_sum < v
-    if kind == "true":
+    if kind in ("true", "default"):
         return True
     raise ValueError(spec)
 
@@ -99,6 +101,9 @@ class ScriptedRunner(R.SimulationRunner):
         return res
 
     def _keep_going(self, current_params, current_sim_results, current_rep):
+        if self.keep_spec[0] == "default":
+            # the library's own default stop rule (not overridden by the user)
+            return R.SimulationRunner._keep_going(self, current_params, current_sim_results, current_rep)
         s = current_sim_results["v"][-1].get_result()
         r = eval_keep_going(self.keep_spec, s, current_rep)
         if self.keep_spec[0].endswith("_np"):
